@@ -41,6 +41,21 @@ CHECKS = {
          "LatestHeaderLocator is checked after every extension of a growing chain and on every generated store (tip first, longest-chain hashes only, strictly descending, single steps then doubling, genesis last); tens of thousands of getheaders queries (locators mixing longest/stale/orphan/unknown hashes in any order, every class of stop hash) are compared header-by-header with the statement's answer, through both LocateHeaders and LocateHeadersGetHeaders.",
          "Trusted: reference model; number of single locator steps not fixed by the statement (any accepted); a stop hash that is not on the longest chain is read as 'no stop'; SQLite only.",
          "DESIGN.md §5 C13"),
+ "C06": ("exploration",
+         "runtime monitoring of the real sync engines against scripted Bitcoin-protocol nodes on loopback TCP (one child process per scenario); verdict at logical quiescence (ping/pong causality + sync-manager round trip), oracle = the rig's block tree",
+         "Each generated scenario runs the full legacy P2P server (addrmgr, connmgr, serverPeer, SyncManager) or the experimental Peer against 1-4 protocol-conformant scripted nodes (honest, laggards, lighter forkers) across engines x checkpoint configurations x initial stores x reply caps x chain lengths around and beyond the 2000 cap x announcement modes x connection drops; after an honest announcement round the store must hold the honest chain and report its tip. Seeded sampling of the scenario space; timer-driven convergence (3-minute sync-peer rotation) only in the thorough tier.",
+         "Trusted: scripted nodes implement the getheaders protocol as stated; domain limits listed in the evidence assumptions (competing forks lighter and adoptable from one reply; forks/laggards above the last checkpoint; experimental engine single peer, headers announcements). Watchdog expiry is inconclusive, never a verdict.",
+         "DESIGN.md §5 C06"),
+ "C07": ("exploration",
+         "runtime monitoring: same scenario engine with misbehaving scripted nodes (forbidden header at first/middle/last/alone position of its batch; header contradicting a checkpoint; multi-checkpoint syncs); connection state and message logs observed at the node, table snapshots and HTTP probes for the forbidden hash, then the C06 convergence oracle",
+         "For each scenario the misbehaving node is the only reachable one first (so it is asked), then honest nodes connect. The forbidden hash must never be stored or served, its sender must be disconnected and (legacy, 1 h ban) no later connection of that host may stay admitted while a 1 ms ban lets it back in; after a checkpoint mismatch the connection must be closed with no further getheaders on it; stop hashes must walk the checkpoint list and end with zero; the service must still converge on the honest chain.",
+         "Trusted: forbidden hash is harness-chosen and appended to the network parameters before start; ban observed by effect at the node; experimental engine attaches peers one after the other.",
+         "DESIGN.md §5 C07"),
+ "C15": ("exploration",
+         "runtime monitoring: (1) Go race detector over free-running P2P rigs with concurrent HTTP readers, (2) harness-controlled scheduler at the repository interface with the structural invariant evaluated after every granted step (systematic DFS over schedules within a pre-emption bound), (3) porcupine linearizability check of recorded Add histories + final table against the reference model",
+         "The race-built binary runs legacy and experimental engines with peer churn, two peers announcing at once, an inbound peer and HTTP readers of /network/peer etc.; every race report is attributed by its innermost repository functions. Twelve concurrency scenarios of 2-3 submitters/readers are executed under all schedules (within the bound) at repository-call granularity; with the world stopped after each step the table must have exactly one parent-linked longest chain and every tip a reader got must be LONGEST; every execution's history must be linearizable to the final table.",
+         "Trusted: scheduling granularity = repository.Headers calls; a goroutine blocked on a Go mutex is treated as disabled; race detector only sees executed paths; reference model.",
+         "DESIGN.md §5 C15"),
 }
 
 NOT_YET = "check not built yet in this session (work in progress; design in DESIGN.md §5)"
